@@ -14,9 +14,13 @@
      described by [r_vendor] (today one: the Android factory, which hands a vendor event to
      the quality-report class when the sub-event code and the report id match, and
      otherwise declines); a factory the translator does not recognise fails the check;
-   * the two hand-written commands listed in [r_custom] (item count = number of bits set
-     in a PHY mask) parse to [PCustomClass]: their field layout is not modelled; a command
-     that overrides parse_return_parameters ([r_custom_return]) gives [PCmdCompleteCustom];
+   * the two hand-written commands whose item count is the number of bits set in a PHY
+     mask are [r_phy] (head fields, index of the mask, fields of one item); they do not cache
+     the received parameter block (their __init__ rebuilds it), and given per-PHY lists
+     LONGER than the mask's bit count the code ignores the extra items while the model
+     reports an error (such values are outside the round-trip contract);
+   * a command that overrides parse_return_parameters with the field-by-field parse that
+     stops at the first short field ([r_lenient_return], Android vendor capabilities);
    * class identity is (kind, code); [known = false] is the generic fallback class. *)
 From Coq Require Import String ZArith List Bool.
 From BV Require Import Base.Bytes Model.SpecCodec.
@@ -33,11 +37,17 @@ Definition K_LE_EVENT := 2.
 Definition K_RETURN := 3.
 Definition K_VENDOR := 4.                       (* vendor sub-event classes reached through a factory *)
 
+(* HCI_LE_Set_Extended_Scan_Parameters_Command / HCI_LE_Extended_Create_Connection_Command:
+   p_head, then popcount(head value number p_idx) items of p_row *)
+Record phycls := mkphy {
+  p_code : Z; p_name : string; p_head : list field; p_idx : nat; p_row : list aspec
+}.
+
 Record registry := mkreg {
   r_classes : list cls;
-  r_custom : list (Z * Z);                     (* (kind, code) of hand-written classes *)
+  r_phy : list phycls;                         (* hand-written PHY-mask commands *)
   r_return : list (Z * (string * bool));       (* opcode -> return class name, status first *)
-  r_custom_return : list Z;                    (* opcodes whose command overrides parse_return_parameters *)
+  r_lenient_return : list Z;                   (* opcodes whose return parameters are parsed field by field until short *)
   r_vendor : list (Z * list Z);                (* vendor factories in call order: (sub-event code, report ids) *)
   r_objects : list (Z * Z)                     (* (kind, index of the dict object that holds the registry) *)
 }.
@@ -48,8 +58,60 @@ Definition find_class (R : registry) (kind code : Z) : option cls :=
 Definition find_by_name (R : registry) (kind : Z) (name : string) : option cls :=
   find (fun c => Z.eqb (c_kind c) kind && String.eqb (c_name c) name) (r_classes R).
 
-Definition is_custom (R : registry) (kind code : Z) : bool :=
-  existsb (fun p => Z.eqb (fst p) kind && Z.eqb (snd p) code) (r_custom R).
+Definition find_phy (R : registry) (op : Z) : option phycls :=
+  find (fun p => Z.eqb (p_code p) op) (r_phy R).
+
+(* bin(x).count('1') *)
+Fixpoint popcount_pos (p : positive) : nat :=
+  match p with
+  | xH => 1%nat
+  | xO q => popcount_pos q
+  | xI q => S (popcount_pos q)
+  end.
+Definition popcount (z : Z) : nat := match z with Zpos p => popcount_pos p | _ => 0%nat end.
+
+(* the field list a PHY-mask command has for a mask with k bits set; its values are the
+   head values followed by the k items' values, item by item *)
+Definition phy_fields (pc : phycls) (k : nat) : list field :=
+  p_head pc ++ concat (repeat (map F1 (p_row pc)) k).
+
+Definition phy_count (pc : phycls) (vals : list value) : option nat :=
+  match nth_error vals (p_idx pc) with
+  | Some (VInt z) => Some (popcount z)
+  | _ => None
+  end.
+
+Definition serialize_phy (pc : phycls) (vals : list value) : option (list Z) :=
+  match phy_count pc vals with
+  | Some k => serialize_fields (phy_fields pc k) vals
+  | None => None
+  end.
+
+Definition parse_phy (pc : phycls) (prev0 : Z) (params : list Z) : option (list value) :=
+  match parse_fields (p_head pc) prev0 params with
+  | Some (hv, _) =>
+      match phy_count pc hv with
+      | Some k =>
+          match parse_fields (phy_fields pc k) prev0 params with
+          | Some (vs, _) => Some vs
+          | None => None
+          end
+      | None => None
+      end
+  | None => None
+  end.
+
+(* field-by-field parse that stops at the first field it cannot read and leaves that field
+   and the following ones at their default, 0 *)
+Fixpoint par_lenient (fs : list field) (prev : Z) (bs : list Z) : list value :=
+  match fs with
+  | [] => []
+  | f :: r =>
+      match par F_codec f prev bs with
+      | Some (v, n) => v :: par_lenient r (adv_prev n prev bs) (skipn n bs)
+      | None => map (fun _ => VInt 0) fs
+      end
+  end.
 
 Fixpoint assoc {A : Type} (k : Z) (l : list (Z * A)) : option A :=
   match l with
@@ -76,7 +138,6 @@ Inductive packet :=
 | PEvent (code : Z) (known : bool) (vals : list value) (params : list Z)
 | PCmdComplete (vals : list value) (ret_name : string) (ret_vals : list value) (params : list Z)
 (* HCI_LE_Meta_Event; params include the sub-event code byte *)
-| PCmdCompleteCustom (vals : list value) (params : list Z)   (* return parameters parsed by hand-written code *)
 | PLeMeta (sub : Z) (known : bool) (vals : list value) (params : list Z)
 (* a vendor event (0xFF) that a registered factory turned into a vendor sub-event class *)
 | PVendorSub (sub : Z) (vals : list value) (params : list Z)
@@ -84,8 +145,7 @@ Inductive packet :=
 | PSco (handle status total : Z) (data : list Z)
 | PIso (handle pb total : Z) (time_stamp : option Z) (sdu : option (Z * Z * Z))
        (frag : list Z)                          (* sdu = (sequence number, sdu length, status flag) *)
-| PCustom (payload : list Z)
-| PCustomClass (kind code : Z) (params : list Z).
+| PCustom (payload : list Z).
 
 (* dict_from_bytes(parameters, 0, fields): data[offset-1] at offset 0 is Python's
    data[-1], the last byte *)
@@ -111,8 +171,19 @@ Definition parse_command (R : registry) (b : list Z) : option packet :=
           | None => None
           end
       | None =>
-          if is_custom R K_COMMAND op then Some (PCustomClass K_COMMAND op params)
-          else Some (PCommand op false [] params)
+          match find_phy R op with
+          | Some pc =>
+              (* the class constructor rebuilds the parameter block in __init__; the received one is not kept *)
+              match parse_phy pc (last params 0) params with
+              | Some vs =>
+                  match serialize_phy pc vs with
+                  | Some ps => Some (PCommand op true vs ps)
+                  | None => None
+                  end
+              | None => None
+              end
+          | None => Some (PCommand op false [] params)
+          end
       end.
 
 (* the [parameters] property: the cached bytes, recomputed from the fields only when the
@@ -128,7 +199,13 @@ Definition class_params (R : registry) (kind code : Z) (known : bool) (vals : li
   if known then
     match find_class R kind code with
     | Some c => serialize_fields (c_fields c) vals
-    | None => None
+    | None =>
+        if kind =? K_COMMAND then
+          match find_phy R code with
+          | Some pc => serialize_phy pc vals
+          | None => None
+          end
+        else None
     end
   else Some [].                                           (* fields = () *)
 
@@ -156,7 +233,9 @@ Definition parse_return (R : registry) (op : Z) (rpb : list Z) : option (string 
       match find_by_name R K_RETURN name with
       | None => None
       | Some c =>
-          if status_first then
+          if existsb (Z.eqb op) (r_lenient_return R) then
+            Some (name, par_lenient (c_fields c) (last rpb 0) rpb)
+          else if status_first then
             match rpb with
             | [] => None                                   (* parameters[0]: IndexError *)
             | st :: _ =>
@@ -211,13 +290,10 @@ Definition plain_event (R : registry) (code : Z) (params : list Z) : option pack
           if code =? HCI_COMMAND_COMPLETE_EVENT then
             match vs with
             | [n; VInt op; _] =>
-                if existsb (Z.eqb op) (r_custom_return R)
-                then Some (PCmdCompleteCustom [n; VInt op] params)
-                else
-                  match parse_return R op (skipn 3 params) with
-                  | Some (rn, rvs) => Some (PCmdComplete [n; VInt op] rn rvs params)
-                  | None => None
-                  end
+                match parse_return R op (skipn 3 params) with
+                | Some (rn, rvs) => Some (PCmdComplete [n; VInt op] rn rvs params)
+                | None => None
+                end
             | _ => None
             end
           else Some (PEvent code true vs params)
@@ -376,11 +452,6 @@ Definition packet_bytes (R : registry) (p : packet) : option (list Z) :=
       | Some ps => event_bytes (class_event R K_EVENT HCI_COMMAND_COMPLETE_EVENT true HCI_COMMAND_COMPLETE_EVENT) ps
       | None => None
       end
-  | PCmdCompleteCustom _ params =>
-      match cached params None with
-      | Some ps => event_bytes (class_event R K_EVENT HCI_COMMAND_COMPLETE_EVENT true HCI_COMMAND_COMPLETE_EVENT) ps
-      | None => None
-      end
   | PVendorSub sub vals params =>
       let recompute :=
         match class_params R K_VENDOR sub true vals with
@@ -405,7 +476,6 @@ Definition packet_bytes (R : registry) (p : packet) : option (list Z) :=
   | PSco handle status total data => sco_bytes handle status total data
   | PIso handle pb total ts sdu frag => iso_bytes handle pb total ts sdu frag
   | PCustom payload => Some payload
-  | PCustomClass _ _ _ => None
   end.
 
 (* building a packet from field values: the class constructor called with the values as keyword arguments *)
@@ -443,7 +513,7 @@ Fixpoint no_dup_codes (l : list (Z * Z)) : bool :=
   end.
 
 Definition codes_unique (R : registry) : bool :=
-  no_dup_codes (map (fun c => (c_kind c, c_code c)) (r_classes R) ++ r_custom R).
+  no_dup_codes (map (fun c => (c_kind c, c_code c)) (r_classes R) ++ map (fun p => (K_COMMAND, p_code p)) (r_phy R)).
 
 Fixpoint no_dup_names (l : list string) : bool :=
   match l with
@@ -477,9 +547,24 @@ Definition vendor_ok (R : registry) : bool :=
   forallb (fun r => match find_class R K_VENDOR (fst r) with Some _ => true | None => false end) (r_vendor R)
   && match find_class R K_EVENT HCI_LE_META_EVENT with Some _ => false | None => true end.
 
+(* a PHY-mask command: self-delimiting head and item, the mask is a one-byte head field *)
+Definition wf_phy (pc : phycls) : bool :=
+  tight_fields (p_head pc) && forallb (fun a => wf_a a && tight_a a) (p_row pc) &&
+  u_range 2 (p_code pc) &&
+  match nth_error (p_head pc) (p_idx pc) with
+  | Some (One (Atom (UInt 1))) => true
+  | _ => false
+  end.
+
+Definition build_phy (pc : phycls) (vals : list value) : option packet :=
+  match serialize_phy pc vals with
+  | Some ps => Some (PCommand (p_code pc) true vals ps)
+  | None => None
+  end.
+
 Definition wf_registry (R : registry) : bool :=
   forallb wf_class (r_classes R) && codes_unique R && returns_ok R
-  && objects_distinct R && vendor_ok R.
+  && objects_distinct R && vendor_ok R && forallb wf_phy (r_phy R).
 
 (* names of the classes that are not well-formed (for diagnostics) *)
 Definition bad_classes (R : registry) : list string :=
